@@ -45,6 +45,9 @@ def explore(res, rng, n):
 
     for i in range(n):
         h, s = core.gen_history(rng, maxlen=30)
+        if i % 16 == 7 and h and max(abs(v) for v in h) < 4096:
+            s = 600                      # tiny magnitudes (k * 2^-600, still exact): products of two differences underflow to zero
+            res.stat('tiny_magnitude_2^-600')
         if i < 3:
             res.samples.append({'history': h, 'scale_2^-s': s})
         if len(set(h)) > 1:
@@ -84,6 +87,8 @@ def explore(res, rng, n):
             res.stat('hyst_dropped_%s' % ('0' if len(o) == len(h) else 'some'))
             add('hy', 'sequenceHysteresisFilter', {'input': h, 'scale': s, 'gate': gate}, enc_list(o),
                 f'hyst {enc_list(h)} {gate}', f'c19hy {enc_list(h)} {gate} {enc_list(o)}')
+        if s == 600:
+            s = 0           # the tiny-magnitude stream is for the two filters only
         # ---- digitisation: data k/2^s, resolution r/2^s
         r = rng.choice([1, 2, 3, 4, 5, 6, 8, 12, 16, 3 << s, 1 << s, 7])
         d = list(h)
